@@ -28,7 +28,7 @@ ASSUMPTIONS = [
     "group_by as a persistent mark is not a transition (count() exercises grouping on a copy)",
 ]
 BOUND = {
-    "quick": "7 initial frames; depth 2 over the full menu plus depth 3 along the hidden-state sub-alphabet (in-place edits, observe-and-discard calls, cell pokes) ending in any operation; full menu (about 40-95 operations per state incl. converters, subsetting, sort, 5 joins, rbind/cbind/update, modify, select/rename, in-place set/del/pop/popitem/colnames, re-assignment of deleted names); depth 2; caps 4 columns / 6 rows",
+    "quick": "7 initial frames; depth 2 over the full menu plus depth 3 along the hidden-state sub-alphabet (in-place edits, observe-and-discard calls, cell pokes) ending in any operation; full menu (about 40-95 operations per state incl. converters, subsetting, sort, 5 joins, rbind/cbind/update, modify, select/rename, in-place set/del/pop/popitem/colnames, re-assignment of deleted names); depth 2; caps 6 columns / 6 rows; all single transitions again under 2 (thorough 4) other string-hash seeds",
     "thorough": "same menu, depth 3 (hidden-state sub-alphabet depth 4)",
 }
 TIME_CAP = {"quick": 300, "thorough": 3300}
@@ -50,6 +50,11 @@ def shards(tier):
                 # one level deeper along the sub-alphabet that leaves hidden state on the object
                 # (in-place edits, observations, cell pokes); the last step is again any operation
                 out.append({"init": init, "prefix": [op], "depth": depth_of(tier), "hidden_then_any": True})
+    # every single transition once more under other string-hash seeds (fresh interpreters): nothing may depend on
+    # the iteration order of a set of names
+    for seed in (["1", "2"] if tier == "quick" else ["1", "2", "3", "4"]):
+        for init in range(len(dfbfs.INITS)):
+            out.append({"init": init, "prefix": [], "depth": 1, "__env__": {"PYTHONHASHSEED": seed}})
     return out
 
 
